@@ -6,7 +6,7 @@ evaluated with `#eval` (one Lean file, `lake env lean`) on random and boundary i
 `betterproto._Duration.delta_from_json / delta_to_json`, `_Timestamp.timestamp_to_json`, `_parse_float` run on the
 corresponding Python objects.  This checks what the proofs cannot: that `Decimal(text)`, `Decimal * 10**6`, `int()`,
 `value[:-1]`, the f-string rendering, `dt.microsecond` / `astimezone` / `replace` / `isoformat` (as a second count)
-mean what the prelude says — including the datetimes with a SUB-SECOND utcoffset (defect D47 of docs/p28-notes.md).
+mean what the prelude says — including the datetimes with a SUB-SECOND utcoffset (finding D-p28a of docs/p28-notes.md).
 
     /venv/bin/python harness/tests/check_srcleaf.py [N per function, default 1500] [seed]
 """
